@@ -268,6 +268,8 @@ struct Call {
     log: bool,
     /// extra shape component (bit-flip region, grammar skeleton, ...)
     extra: String,
+    /// how many times the (identical) ETag header is present in the response (an intermediary may repeat it)
+    etag_repeat: u8,
 }
 
 struct Cx<'a> {
@@ -432,7 +434,7 @@ fn record(ks: &KeySet, case: &str, c: &Call, inline_keys: bool) -> Value {
         "key_id": c.key_id.to_string(),
         "nonce_hex": hex(&c.nonce),
         "etag_hex": c.etag.as_ref().map(|e| hex(e)),
-        "etag_count": if c.etag.is_some() { 1 } else { 0 },
+        "etag_count": if c.etag.is_some() { c.etag_repeat as u64 } else { 0 },
         "expected": if c.expect_ok.is_some() { "ok" } else { "err" },
         "expected_sig_hex": c.expect_ok.as_ref().map(|s| hex(s)),
     });
@@ -446,11 +448,13 @@ fn record(ks: &KeySet, case: &str, c: &Call, inline_keys: bool) -> Value {
     v
 }
 
-fn call_library(h: &StandardCupv2Handler, req: &[u8], resp: &[u8], key_id: u64, nonce: [u8; 32], etag: Option<&[u8]>) -> Result<Result<Result<Vec<u8>, String>, crate::common::PanicInfo>, String> {
+fn call_library(h: &StandardCupv2Handler, req: &[u8], resp: &[u8], key_id: u64, nonce: [u8; 32], etag: Option<&[u8]>, repeat: u8) -> Result<Result<Result<Vec<u8>, String>, crate::common::PanicInfo>, String> {
     let mut b = http::Response::builder().status(200);
     if let Some(e) = etag {
-        let hv = http::HeaderValue::from_bytes(e).map_err(|_| "harness generated bytes that no HeaderValue can hold".to_string())?;
-        b = b.header(http::header::ETAG, hv);
+        for _ in 0..repeat.max(1) {
+            let hv = http::HeaderValue::from_bytes(e).map_err(|_| "harness generated bytes that no HeaderValue can hold".to_string())?;
+            b = b.header(http::header::ETAG, hv);
+        }
     }
     let response = b.body(resp.to_vec()).map_err(|e| format!("harness could not build response: {e}"))?;
     let md = RequestMetadata { request_body: req.to_vec(), public_key_id: key_id, nonce: Nonce::from(nonce) };
@@ -460,7 +464,7 @@ fn call_library(h: &StandardCupv2Handler, req: &[u8], resp: &[u8], key_id: u64, 
 /// One verifier call judged by oracle (i) and logged for oracle (ii).
 fn judge(cx: &mut Cx, ks: &mut KeySet, exshape: &str, c: &Call) {
     let case = cx.case_id();
-    let outcome = match call_library(&ks.handler, &c.req, &c.resp, c.key_id, c.nonce, c.etag.as_deref()) {
+    let outcome = match call_library(&ks.handler, &c.req, &c.resp, c.key_id, c.nonce, c.etag.as_deref(), c.etag_repeat) {
         Ok(o) => o,
         Err(why) => {
             cx.r.count("harness_skipped_unbuildable_header", 1);
@@ -659,7 +663,7 @@ const ENCS: [&str; 3] = ["plain", "quoted", "weak"];
 
 fn base_call(e: &Exchange, enc: &'static str) -> Call {
     let inner = format!("{}:{}", hex(&e.der), hex(&sha(&e.req)));
-    Call { rule: Rule::Mutant, kind: String::new(), enc, req: e.req.clone(), resp: e.resp.clone(), key_id: e.id, nonce: e.nonce, etag: Some(wrap(enc, &inner)), expect_ok: None, log: true, extra: String::new() }
+    Call { rule: Rule::Mutant, kind: String::new(), enc, req: e.req.clone(), resp: e.resp.clone(), key_id: e.id, nonce: e.nonce, etag: Some(wrap(enc, &inner)), expect_ok: None, log: true, extra: String::new(), etag_repeat: 1 }
 }
 
 /// All judged calls for one authentic exchange `e` (partner `p` = another exchange of the same key set).
@@ -678,7 +682,13 @@ fn exchange_calls(cx: &mut Cx, rng: &mut Rng, ks: &KeySet, e: &Exchange, p: &Exc
         c.kind = "authentic".into();
         c.extra = high.into();
         c.expect_ok = Some(e.der.clone());
-        out.push(c);
+        out.push(c.clone());
+        // the same authentic header present two or three times (identical values): still the authentic response
+        if rng.chance(1, 4) {
+            c.kind = "authentic-etag-repeated".into();
+            c.etag_repeat = 2 + (rng.below(2) as u8);
+            out.push(c);
+        }
     }
     // accepted encoding variants, three encodings each
     let mixed_s = mixed_case(&sh, rng);
@@ -1286,7 +1296,7 @@ fn random_etag(rng: &mut Rng, good_hash_hex: &str, ascii_only: bool, avoid_der: 
 
 fn grammar_call(req: &[u8], resp: &[u8], id: u64, kind: &str, etag: Vec<u8>) -> Call {
     let extra = skeleton(&etag);
-    Call { rule: Rule::Grammar, kind: kind.into(), enc: "raw", req: req.to_vec(), resp: resp.to_vec(), key_id: id, nonce: [7u8; 32], etag: Some(etag), expect_ok: None, log: true, extra }
+    Call { rule: Rule::Grammar, kind: kind.into(), enc: "raw", req: req.to_vec(), resp: resp.to_vec(), key_id: id, nonce: [7u8; 32], etag: Some(etag), expect_ok: None, log: true, extra, etag_repeat: 1 }
 }
 
 fn run_grammar(cx: &mut Cx, ks: &mut KeySet, nrandom: u64, maxlen: u32, miri: bool) {
@@ -1421,7 +1431,7 @@ fn replay(args: &Args, r: &mut Report, path: &str) {
         }
     } else {
         let etag = rec["etag_hex"].as_str().map(|s| ::hex::decode(s).unwrap_or_default());
-        match call_library(&h, &req, &resp, key_id, nonce, etag.as_deref()) {
+        match call_library(&h, &req, &resp, key_id, nonce, etag.as_deref(), rec["etag_count"].as_u64().unwrap_or(1).max(1) as u8) {
             Err(why) => {
                 r.inconclusive.push(format!("replay: {why}"));
                 return;
